@@ -261,6 +261,83 @@ if old != text:
 # drift report against the committed baseline
 base = os.path.join(base_dir, "Consts.lean.txt")
 drift = os.path.exists(base) and open(base).read() != text
+# ---------------------------------------------------------------- call sites: Gen/Calls.lean
+# Which functions of the tower call the functions the model gives a special role to. The model's
+# theorems enumerate these call sites; a new caller (or a moved one) changes the generated lists and
+# breaks the theorems that pin them (C01, C02, C04).
+def non_test(path):
+    t = strip_comments(src(path))
+    k = t.find("#[cfg(test)]")
+    return t if k < 0 else t[:k]
+
+
+def functions(text):
+    """[(name, body_start, body_end)] of every `fn` with a body"""
+    out = []
+    for m in re.finditer(r"\bfn\s+(\w+)\b[^{;]*\{", text):
+        i, depth = m.end(), 1
+        while i < len(text) and depth:
+            depth += (text[i] == "{") - (text[i] == "}")
+            i += 1
+        out.append((m.group(1), m.end(), i - 1))
+    return out
+
+
+def callers(files, pattern, arg=None):
+    res = []
+    for stem, path in files:
+        t = non_test(path)
+        fns = functions(t)
+        for m in re.finditer(pattern, t):
+            encl = [(st, n) for n, st, en in fns if st <= m.start() < en]
+            name = max(encl)[1] if encl else "?"      # innermost enclosing function
+            extra = ""
+            if arg:
+                am = re.match(arg, t[m.end():], flags=re.S)
+                extra = am.group(1) if am else "?"
+            res.append((stem, name, extra))
+    return res
+
+
+def cq(x):
+    return '"' + x.replace("\\", "\\\\").replace('"', '\\"') + '"'
+
+
+tower_files = [("carrier", "teos/src/carrier.rs"), ("responder", "teos/src/responder.rs"), ("watcher", "teos/src/watcher.rs"),
+               ("gatekeeper", "teos/src/gatekeeper.rs"), ("chain_monitor", "teos/src/chain_monitor.rs"),
+               ("internal", "teos/src/api/internal.rs"), ("http", "teos/src/api/http.rs"), ("main", "teos/src/main.rs")]
+calls = [
+    ("sendRaw", callers(tower_files, r"\.send_raw_transaction\(")),
+    ("getRaw", callers(tower_files, r"\.get_raw_transaction_info\(")),
+    ("carrierSend", callers(tower_files, r"\.send_transaction\(")),
+    ("carrierInMempool", callers(tower_files, r"\.in_mempool\(")),
+    ("handleBreach", callers(tower_files, r"\.handle_breach\(")),
+    ("addTracker", callers(tower_files, r"\.add_tracker\(")),
+    ("deleteAppointments", callers(tower_files, r"\.delete_appointments\(", r"[^;]*?,\s*(true|false)\s*\)")),
+    ("removeUsers", callers(tower_files, r"\.batch_remove_users\(")),
+    ("storeTracker", callers(tower_files, r"\.store_tracker\(")),
+    ("updateTrackerStatus", callers(tower_files, r"\.update_tracker_status\(")),
+]
+cpath = os.path.join(gen_dir, "Calls.lean")
+cbase = os.path.join(base_dir, "Calls.lean.txt")
+if all(l for _, l in calls) and not any(n == "?" or x == "?" for _, l in calls for _, n, x in l):
+    C = ["/- GENERATED by tools/extract.py from the non-test source of teos/src: which function calls which",
+         "   (file, enclosing function, literal argument where one is recorded). Do not edit. -/",
+         "namespace Teos.Gen.Calls", ""]
+    for name, l in calls:
+        C.append(f"def {name} : List (String × String × String) := [" + ", ".join(f"({cq(a)}, {cq(b)}, {cq(c)})" for a, b, c in l) + "]")
+    C += ["", "end Teos.Gen.Calls"]
+    t = "\n".join(C) + "\n"
+    if not os.path.exists(cpath) or open(cpath).read() != t:
+        open(cpath, "w").write(t)
+    found["calls"] = str(sum(len(l) for _, l in calls))
+    if os.path.exists(cbase) and open(cbase).read() != t:
+        found["calls_differs_from_baseline"] = "true"
+elif os.path.exists(cbase):
+    fallback["calls"] = "call sites not located; baseline used"
+    if not os.path.exists(cpath) or open(cpath).read() != open(cbase).read():
+        open(cpath, "w").write(open(cbase).read())
+
 print(json.dumps({"found": len(found), "fallback": fallback, "differs_from_baseline": bool(drift), "items": found}))
 
 # ================================================================ configuration (C20): Gen/Config.lean
